@@ -451,4 +451,61 @@ theorem s16_half_step (x : Nat) (hx : x < 2 ^ 32) :
     rw [show ((Dds.Quant.snormLevels 16 : Nat) : Rat) = 65534 from by decide] at this
     exact this
 
+/-- for `0 ≤ x ≤ 1` the clamp is the identity: `norm = ⌊v·65534 + 1/2⌋` -/
+theorem s16Norm_le_one_rat (x : Nat) (hx : x ≤ one) :
+    s16Norm x = Dds.Quant.roundHalfUp (toRat x * 65534) := by
+  obtain ⟨f1, f2, f3, f4, f5, f6⟩ := le_one_fields x hx
+  have h := s16Norm_eq_sq x (Nat.lt_of_le_of_lt hx (by decide))
+  have hfin : isNaN x = false ∧ isInf x = false := by
+    obtain ⟨a1, a2, _⟩ := SharedExp.posfin_flags x (Nat.lt_of_le_of_lt hx (by decide))
+    exact ⟨a1, a2⟩
+  unfold uvalue at h
+  simp only [hfin.1, hfin.2, Bool.false_eq_true, if_false] at h
+  rw [h]
+  unfold Dds.Quant.sq Dds.Quant.qL
+  obtain ⟨c0, c1⟩ := Dds.Quant.ratio_mem (Nat.two_pow_pos (-expo x).toNat) f5
+  rw [toRat_le_one x hx, Dds.Quant.clamp01_of_mem c0 c1]
+  rfl
+
+/-! ### the three SNORM16 formats -/
+
+theorem s16_some (x : Nat) (hx : x < 2 ^ 32) : ∃ v, s16 x = some v ∧ v < 2 ^ 16 := by
+  obtain ⟨v, h1, h2, _⟩ := s16_half_step x hx
+  exact ⟨v, h1, h2⟩
+
+theorem encode16_fit (r g b a : Nat) (hr : r < 2 ^ 32) (hg : g < 2 ^ 32) (hb : b < 2 ^ 32)
+    (ha : a < 2 ^ 32) :
+    ∃ r' g' b' a', s16 r = some r' ∧ s16 g = some g' ∧ s16 b = some b' ∧ s16 a = some a' ∧
+      encode16 "R16_SNORM" r g b a = some r' ∧ r' < 2 ^ 16 ∧
+      encode16 "R16G16_SNORM" r g b a = some (pack [(r', 16), (g', 16)]) ∧
+      pack [(r', 16), (g', 16)] < 2 ^ 32 ∧
+      encode16 "R16G16B16A16_SNORM" r g b a = some (pack [(r', 16), (g', 16), (b', 16), (a', 16)]) ∧
+      pack [(r', 16), (g', 16), (b', 16), (a', 16)] < 2 ^ 64 := by
+  obtain ⟨r', e1, h1⟩ := s16_some r hr
+  obtain ⟨g', e2, h2⟩ := s16_some g hg
+  obtain ⟨b', e3, h3⟩ := s16_some b hb
+  obtain ⟨a', e4, h4⟩ := s16_some a ha
+  refine ⟨r', g', b', a', e1, e2, e3, e4, ?_, h1, ?_, ?_, ?_, ?_⟩
+  · show s16 r = some r'
+    exact e1
+  · show (match s16 r, s16 g with
+      | some r, some g => some (r ||| (g <<< 16))
+      | _, _ => none) = _
+    rw [e1, e2]
+    simp only [pack, Nat.zero_shiftLeft, Nat.or_zero]
+  · apply pack_fields_lt _ _ 32 rfl
+    simp only [List.mem_cons, List.not_mem_nil, or_false]
+    intro f hf
+    rcases hf with rfl | rfl <;> dsimp only <;> omega
+  · show (match s16 r, s16 g, s16 b, s16 a with
+      | some r, some g, some b, some a => some (r ||| (g <<< 16) ||| (b <<< 32) ||| (a <<< 48))
+      | _, _, _, _ => none) = _
+    rw [e1, e2, e3, e4]
+    simp only [pack, Nat.shiftLeft_or_distrib, ← Nat.shiftLeft_add, Nat.zero_shiftLeft, Nat.or_zero,
+      Nat.or_assoc]
+  · apply pack_fields_lt _ _ 64 rfl
+    simp only [List.mem_cons, List.not_mem_nil, or_false]
+    intro f hf
+    rcases hf with rfl | rfl | rfl | rfl <;> dsimp only <;> omega
+
 end Dds.EncTotal.QuantBits
